@@ -306,15 +306,26 @@ def sig_of(case, x=None):
 # check
 
 
+def build_x(case):
+    """The array of the case; ``nan_plane=[b, i]`` (float data) fills the hyperplane ``index i on axis b`` with NaN, so
+    that every slice along another axis that lies in it is all-NaN while the array as a whole is not: NumPy's nanarg*
+    raise there (and dask must too), nanmin/nanmax/nanmean/nanmedian return NaN, nansum/nanprod the identity."""
+    x = A.build_np(case["array"])
+    if case.get("nan_plane") and x.dtype.kind == "f":
+        b, i = case["nan_plane"]
+        x[(slice(None),) * b + (i,)] = np.nan
+    return x
+
+
 def check(case):
     op = case["op"]
     arr = case["array"]
-    x = A.build_np(arr)
+    x = build_x(case)
     d = A.build_da(arr, x)
     axes = reduced_axes(case)
     sig = sig_of(case, x)
     what0 = f"{op}(x{arr['shape']} {arr['dtype']} chunks={arr['chunks']}, axis={case['axis']}, keepdims={case.get('keepdims', False)}" + "".join(
-        f", {k}={case[k]}" for k in ("ddof", "order", "k", "q", "method") if k in case
+        f", {k}={case[k]}" for k in ("ddof", "order", "k", "q", "method", "nan_plane") if k in case
     )
     if op in ("var", "std", "nanvar", "nanstd", "moment"):
         # N - ddof <= 0 is outside the property (NumPy clips the divisor and warns)
@@ -420,6 +431,8 @@ def classes(case):
         yield "method-" + case.get("method", "sequential")
     if arg_axis_none_multichunk(case):
         yield "arg-axis-none-multichunk"
+    if case.get("nan_plane"):
+        yield "all-nan-slices"
     for se in case.get("splits", []):
         yield f"split-{se}"
 
@@ -460,6 +473,9 @@ def enum_cases(tier):
                             if op == "moment":
                                 case["order"] = 3 if kd else 2
                             yield case
+                            if di == 1 and nd >= 2 and op in ("nanargmin", "nanargmax", "nanmin", "nanmax", "nanmean", "nansum"):
+                                # column 0 all-NaN: reducing over axis 0 meets an all-NaN slice next to ordinary ones
+                                yield dict(case, nan_plane=[1, 0])
                 for op in SCAN:
                     for axis in axis_options(op, nd):
                         for method in ("sequential", "blelloch"):
@@ -511,6 +527,9 @@ def random_case(draw):
     if isinstance(axis, int) and C.chance(draw, 25):
         axis = axis - nd  # negative spelling
     case = {"array": arr, "op": op, "axis": axis}
+    if np.dtype(arr["dtype"]).kind == "f" and op.startswith("nan") and nd >= 2 and C.chance(draw, 20):
+        b = draw(st.integers(0, nd - 1))
+        case["nan_plane"] = [b, draw(st.integers(0, arr["shape"][b] - 1))]
     if op in REDUCE or op in ARG or op in ORDER:
         case["keepdims"] = draw(st.booleans())
     if uses_split(op):
